@@ -22,19 +22,19 @@ def se_selector(ctx, rep):
     rep.stats["paths"] += len(pe.paths)
     rep.check(not pe.truncated and all(p.end == "return" for p in pe.paths), "SE0", "paths-complete", ctx.where(b), "%d paths enumerated, all return" % len(pe.paths), "path enumeration incomplete")
     lr = ctx.lr(b)
-    lock = "SelectorSubscriber.last_value"
+    lock = "SelectorSubscriber.%s" % A.f_sel_last
     classes = set()
     for p in pe.paths:
         sel = [e for e in p.calls() if e.site is not None and A.is_user_callback(e.site, "Selector", "select")]
-        ok1 = len(sel) == 1 and strip_wrap(sel[0].args[0]) == ("field", ("param", 1), "selector") and sel[0].args[1] == ("param", 2)
+        ok1 = len(sel) == 1 and strip_wrap(sel[0].args[0]) == ("field", ("param", 1), A.f_sel_selector) and sel[0].args[1] == ("param", 2)
         rep.check(ok1, "SE1", "selected-once-from-notified-state", ctx.where(b, sel[0].bb) if sel else ctx.where(b), "select(state) evaluated once on the notified state", "select evaluated %d times / on %s" % (len(sel), [term_str(a) for e in sel for a in e.args]))
         if not ok1:
             continue
         selected = sel[0].result
-        last = _dec(p, lambda k: k[0] == "discr" and strip_wrap(k[1]) == ("field", ("param", 1), "last_value"))
+        last = _dec(p, lambda k: k[0] == "discr" and strip_wrap(k[1]) == ("field", ("param", 1), A.f_sel_last))
         eqs = [e for e in p.calls() if e.ck in ("std::cmp::PartialEq::eq", "std::cmp::PartialEq::ne")]
-        changes = [e for e in p.calls() if e.ck in ("std::ops::Fn::call", "std::ops::FnMut::call_mut") and strip_wrap(e.args[0]) == ("field", ("param", 1), "on_change")]
-        stores = [e for e in p.events if e.kind == "store" and strip_wrap(e.target) == ("field", ("param", 1), "last_value")]
+        changes = [e for e in p.calls() if e.ck in ("std::ops::Fn::call", "std::ops::FnMut::call_mut") and strip_wrap(e.args[0]) == ("field", ("param", 1), A.f_sel_on_change)]
+        stores = [e for e in p.events if e.kind == "store" and strip_wrap(e.target) == ("field", ("param", 1), A.f_sel_last)]
         if last is None:
             rep.bad("SE2", "last-value-not-tested", ctx.where(b), "path [%s] does not test whether a value was delivered before" % p.describe())
             continue
@@ -46,7 +46,7 @@ def se_selector(ctx, rep):
                 continue
             from mirq.interp import unwrap_all
             a0, a1 = unwrap_all(eqs[0].args[0]), unwrap_all(eqs[0].args[1])
-            lastv = ("vfield", ("field", ("param", 1), "last_value"), "Some", 0)
+            lastv = ("vfield", ("field", ("param", 1), A.f_sel_last), "Some", 0)
             cmp_ok = {a0, a1} == {lastv, selected} or {strip_wrap(a0), strip_wrap(a1)} == {lastv, selected}
             rep.check(cmp_ok, "SE2", "compares-last-delivered-with-selected", ctx.where(b, eqs[0].bb), "eq(last delivered value, newly selected value)", "compares %s with %s" % (term_str(a0), term_str(a1)))
             v = _dec(p, lambda k: k == eqs[0].result)
@@ -83,7 +83,7 @@ def se_selector(ctx, rep):
     nb = A.method("SelectorSubscriber", "new")
     rt = ctx.paths(nb).paths[0].ret
     vals = dict(zip(rt[3], rt[2])) if rt[0] == "agg" and len(rt) > 3 else {}
-    lv = vals.get("last_value", ("opaque", "?"))
+    lv = vals.get(A.f_sel_last, ("opaque", "?"))
     rep.check(lv[0] == "wrap" and lv[2][0] == "agg" and lv[2][1].endswith("Option::None"), "SE4", "starts-without-delivered-value", ctx.where(nb), "last_value starts as None", "last_value starts as %s" % term_str(lv))
     sw = A.method("StoreImpl", "subscribe_with_selector")
     rep.note_fn(sw.path)
@@ -109,7 +109,7 @@ def se5_last_value_single_writer(ctx, rep):
         for s in ctx.prog.sites(b):
             if s.ck.startswith("std::sync::Mutex::") and s.term["args"]:
                 t = strip_wrap(bp.arg_term(s.bb, 0))
-                if t[0] == "field" and t[2] == "last_value":
+                if t[0] == "field" and t[2] == A.f_sel_last:
                     touched.append(s)
         if not touched:
             continue
@@ -117,7 +117,7 @@ def se5_last_value_single_writer(ctx, rep):
         rep.check(b.path in (on.path, nw.path), "SE5", "last_value-only-touched-by-on_notify:%s" % short(b.path), touched[0].where, "%s is the notification path" % short(b.path), "%s also locks/changes the remembered value: the 'last delivered' state no longer follows the notification stream" % short(b.path))
     rep.floor("SE5", "functions touching last_value", n, 1)
     # no other hidden state: on_unsubscribe of the selector subscriber stays the trait default
-    ov = [b for b in ctx.impls_of("Subscriber", "on_unsubscribe") if (b.j.get("impl_adt") or "").endswith("SelectorSubscriber")]
+    ov = [b for b in ctx.impls_of("Subscriber", "on_unsubscribe") if (b.j.get("impl_adt") or "") == A.selector_adt["path"]]
     rep.check(not ov, "SE5", "no-lifecycle-state", ctx.where(ov[0]) if ov else "", "SelectorSubscriber keeps the default on_unsubscribe (no state changed by the lifecycle)", "SelectorSubscriber::on_unsubscribe is overridden: delivery now depends on subscription lifecycle events")
     # every path of on_notify reaches the compare/deliver logic: fields read before it are only
     # selector / last_value / on_change
@@ -128,7 +128,7 @@ def se5_last_value_single_writer(ctx, rep):
             t = strip_wrap(bp.arg_term(s.bb, ai))
             if t[0] == "field" and t[1] == ("param", 1):
                 fields.add(t[2])
-    extra = fields - {"selector", "last_value", "on_change"}
+    extra = fields - {A.f_sel_selector, A.f_sel_last, A.f_sel_on_change}
     rep.check(not extra, "SE5", "on_notify-depends-only-on-selection-state", ctx.where(on), "on_notify reads only selector, last_value and on_change", "on_notify also depends on %s" % sorted(extra))
 
 
@@ -146,12 +146,12 @@ def ds_droppable(ctx, rep):
             continue
         n += 1
         st = [e for e in p.calls() if e.site is not None and ctx.prog.callee_body(e.site) is not None and ctx.prog.callee_body(e.site).path == stop.path]
-        good = len(st) == 1 and strip_wrap(st[0].args[0]) == ("field", ("param", 1), "inner") and not p.decisions
+        good = len(st) == 1 and strip_wrap(st[0].args[0]) == ("field", ("param", 1), A.f_drop_inner) and not p.decisions
         rep.check(good, "DS1", "drop-always-stops-inner", ctx.where(b), "drop calls stop() on the wrapped handle, unconditionally", "path [%s]: %d stop() call(s) on %s" % (p.describe(), len(st), [term_str(e.args[0]) for e in st]))
     rep.floor("DS1", "paths through drop", n, 1)
     d = A.method("DroppableStore", "deref", "Deref")
     rt = ctx.paths(d).paths[0].ret
-    rep.check(strip_wrap(rt) == ("field", ("param", 1), "inner"), "DS2", "deref-exposes-the-same-handle", ctx.where(d), "deref returns &self.inner (clones share the store)", "deref returns %s" % term_str(rt))
+    rep.check(strip_wrap(rt) == ("field", ("param", 1), A.f_drop_inner), "DS2", "deref-exposes-the-same-handle", ctx.where(d), "deref returns &self.inner (clones share the store)", "deref returns %s" % term_str(rt))
     nw = A.method("DroppableStore", "new")
     rt = ctx.paths(nw).paths[0].ret
     good = rt[0] == "agg" and rt[2] == (("param", 1),)
@@ -187,15 +187,15 @@ def it_iterator(ctx, rep):
         else:
             rep.bad("IT1", "construction-shape", ctx.where(inner), "iterator construction not recognised")
     # IT2 feeder
-    fn_ = A.method("StateIteratorSubscriber", "on_notify", "Subscriber")
-    fu = A.method("StateIteratorSubscriber", "on_unsubscribe", "Subscriber")
+    fn_ = A.method(A.name_of(A.feeder_adt), "on_notify", "Subscriber")
+    fu = A.method(A.name_of(A.feeder_adt), "on_unsubscribe", "Subscriber")
     for b, want in ((fn_, "Action"), (fu, "Exit")):
         rep.note_fn(b.path)
         pe = ctx.paths(b)
         for p in pe.paths:
             if p.end != "return":
                 continue
-            has = _dec(p, lambda k: k[0] == "discr" and strip_wrap(k[1]) == ("field", ("param", 1), "iter_tx"))
+            has = _dec(p, lambda k: k[0] == "discr" and strip_wrap(k[1]) == ("field", ("param", 1), A.f_feed_tx))
             sends = [e for e in p.calls() if e.site is not None and A.is_send_wrapper_call(e.site)]
             if has is not None and has.lstrip("*") == "None":
                 rep.check(not sends, "IT2", "feeder-without-sender-is-silent:%s" % b.j.get("name"), ctx.where(b), "no sender: nothing sent", "sends without sender?")
@@ -207,7 +207,7 @@ def it_iterator(ctx, rep):
             rep.check(good, "IT2", "feeder-forwards-once:%s" % b.j.get("name"), ctx.where(b, sends[0].bb) if sends else ctx.where(b),
                       "%s: exactly one enqueue of %s%s" % (b.j.get("name"), want, "((state.clone(), action.clone()))" if want == "Action" else ""), "%s: %d enqueue(s) %s" % (b.j.get("name"), len(sends), [term_str(e.args[1]) for e in sends]))
     # IT3 next (exhaustive)
-    nx = A.method("StateIterator", "next", "Iterator")
+    nx = A.method(A.name_of(A.iterator_adt), "next", "Iterator")
     rep.note_fn(nx.path)
     pe = ctx.paths(nx, inline=True)
     rep.stats["paths"] += len(pe.paths)
@@ -230,22 +230,22 @@ def it_iterator(ctx, rep):
             got = _dec(p, lambda k: rv and k == ("discr", ("vfield", rv[0].result, "Some", 0)))
             rep.check(got == "Action", "IT3", "some-only-for-action-items", ctx.where(nx), "Some only when an Action item was received", "Some on [%s]" % p.describe())
         else:
-            sub = _dec(p, lambda k: k[0] == "discr" and strip_wrap(k[1]) == ("field", ("param", 1), "subscription"))
+            sub = _dec(p, lambda k: k[0] == "discr" and strip_wrap(k[1]) == ("field", ("param", 1), A.f_it_sub))
             uns = [e for e in p.calls() if e.site is not None and A.event(e.site) == "UNSUBSCRIBE"]
             takes = [strip_wrap(e.args[0]) for e in p.calls() if e.ck == "std::option::Option::take"]
-            disarm = ("field", ("param", 1), "iter_rx") in takes
+            disarm = ("field", ("param", 1), A.f_it_rx) in takes
             need_unsub = sub is not None and sub == "Some"
-            good = disarm and (len(uns) == (1 if need_unsub else 0)) and ("field", ("param", 1), "subscription") in takes
+            good = disarm and (len(uns) == (1 if need_unsub else 0)) and ("field", ("param", 1), A.f_it_sub) in takes
             rep.check(good, "IT3", "none-disarms-and-detaches", ctx.where(nx), "path [%s] returns None after unsubscribing (if still subscribed) and dropping the receiver: fused" % p.describe(),
                       "path [%s] returns None but receiver dropped=%s, unsubscribe calls=%d (handle present=%s)" % (p.describe(), disarm, len(uns), need_unsub))
             for u in uns:
-                rep.check(strip_wrap(u.args[0]) == ("vfield", ("take", ("field", ("param", 1), "subscription")), "Some", 0), "IT3", "unsubscribes-own-handle", ctx.where(nx, u.bb), "unsubscribe on the taken handle", "unsubscribe on %s" % term_str(u.args[0]))
+                rep.check(strip_wrap(u.args[0]) == ("vfield", ("take", ("field", ("param", 1), A.f_it_sub)), "Some", 0), "IT3", "unsubscribes-own-handle", ctx.where(nx, u.bb), "unsubscribe on the taken handle", "unsubscribe on %s" % term_str(u.args[0]))
     rep.floor("IT3", "yielding paths", seen_some, 1)
     # IT4 drop
-    dr = A.method("StateIterator", "drop", "Drop")
+    dr = A.method(A.name_of(A.iterator_adt), "drop", "Drop")
     rep.note_fn(dr.path)
     for p in ctx.paths(dr, inline=True).paths:
-        sub = _dec(p, lambda k: k[0] == "discr" and strip_wrap(k[1]) == ("field", ("param", 1), "subscription"))
+        sub = _dec(p, lambda k: k[0] == "discr" and strip_wrap(k[1]) == ("field", ("param", 1), A.f_it_sub))
         uns = [e for e in p.calls() if e.site is not None and A.event(e.site) == "UNSUBSCRIBE"]
         if sub is None:
             rep.bad("IT4", "drop-ignores-handle", ctx.where(dr), "drop does not look at the subscription handle")
@@ -338,7 +338,7 @@ def ch_channeled(ctx, rep):
                 rep.check(good, "R4", "loop-ends-on-exit-or-disconnect", ctx.where(lb, p.blocks[-2]), "delivery loop ends on [%s]" % p.describe(), "delivery loop ends on [%s] (or delivers while ending)" % p.describe())
         rep.floor("R4", "delivery loop paths", n, 3, ctx.where(lb))
     # R3 forwarder
-    fw = A.method("ChanneledSubscriber", "on_notify", "Subscriber")
+    fw = A.method(A.name_of(A.channeled_adt), "on_notify", "Subscriber")
     rep.note_fn(fw.path)
     freach = ctx.sync_reach([fw])
     sends = [(b, s) for b in freach.values() for s in ctx.prog.sites(b) if A.is_send_wrapper_call(s)]
@@ -357,7 +357,7 @@ def ch_channeled(ctx, rep):
     hof = [s for s in ctx.prog.sites(fw) if any(c.path == b.path for (s2, c) in ctx.sync_callees(fw) if s2.bb == s.bb for b, _ in sends)]
     for s in hof:
         may, must = lr.held_at(s.bb)
-        rep.check("ChanneledSubscriber.tx" in must, "R3", "forward-under-own-slot-lock", s.where, "forwarding happens under the wrapper's sender-slot lock", "forwarding without the slot lock")
+        rep.check(("%s.%s" % (A.name_of(A.channeled_adt), A.f_ch_tx)) in must, "R3", "forward-under-own-slot-lock", s.where, "forwarding happens under the wrapper's sender-slot lock", "forwarding without the slot lock")
         rep.check(s.ck in ("std::option::Option::map", "std::option::Option::and_then", "std::option::Option::inspect"), "R3", "only-when-sender-present", s.where, "nothing is sent once the sender slot is empty", "send not conditional on the slot")
     ch_channeled_release(ctx, rep)
     # R5 defaults
@@ -390,14 +390,14 @@ def ch_channeled_release(ctx, rep):
             if poisoned:
                 continue
             joins = [e for e in p.calls() if e.ck in THREAD_JOIN]
-            txt = [e for e in p.calls() if e.ck == "std::option::Option::take" and strip_wrap(e.args[0]) == ("field", ("param", 1), "tx")]
-            ht = [e for e in p.calls() if e.ck == "std::option::Option::take" and strip_wrap(e.args[0]) == ("field", ("param", 1), "handle")]
-            dropped = [e for e in p.events if (e.kind == "drop" and e.target is not None and any(x[0] == "take" and strip_wrap(x[1]) == ("field", ("param", 1), "tx") for x in subterms(e.target))) or (e.kind == "call" and e.ck == "std::mem::drop" and any(x[0] == "take" and strip_wrap(x[1]) == ("field", ("param", 1), "tx") for a in e.args for x in subterms(a)))]
+            txt = [e for e in p.calls() if e.ck == "std::option::Option::take" and strip_wrap(e.args[0]) == ("field", ("param", 1), A.f_ch_tx)]
+            ht = [e for e in p.calls() if e.ck == "std::option::Option::take" and strip_wrap(e.args[0]) == ("field", ("param", 1), A.f_ch_handle)]
+            dropped = [e for e in p.events if (e.kind == "drop" and e.target is not None and any(x[0] == "take" and strip_wrap(x[1]) == ("field", ("param", 1), A.f_ch_tx) for x in subterms(e.target))) or (e.kind == "call" and e.ck == "std::mem::drop" and any(x[0] == "take" and strip_wrap(x[1]) == ("field", ("param", 1), A.f_ch_tx) for a in e.args for x in subterms(a)))]
             enq = [e for e in p.calls() if e.site is not None and (A.is_send_wrapper_call(e.site) or any(e.site.ck == w_.path for w_ in []) or (ctx.prog.callee_body(e.site) is not None and any(ctx.prog.callee_body(e.site).path == w_.path for w_ in A.send_wrappers)))]
             rep.check(not enq, "R2", "release-enqueues-nothing:" + short(b.path), ctx.where(b, enq[0].bb) if enq else ctx.where(b), "the release path puts nothing into the subscriber's channel", "the release path enqueues %s into the subscriber's channel: under a drop policy this evicts a queued notification" % [term_str(e.args[1]) if len(e.args) > 1 else "?" for e in enq])
-            hs = _dec(p, lambda k: k[0] == "discr" and strip_wrap(k[1]) == ("field", ("param", 1), "handle") and k[1][0] != "lockres")
+            hs = _dec(p, lambda k: k[0] == "discr" and strip_wrap(k[1]) == ("field", ("param", 1), A.f_ch_handle) and k[1][0] != "lockres")
             if hs == "Some":
-                good = len(joins) == 1 and txt and dropped and p.events.index(dropped[0]) < p.events.index(joins[0]) and strip_wrap(joins[0].args[0]) == ("vfield", ("take", ("wrap", "Guard", ("field", ("param", 1), "handle"))), "Some", 0) or False
+                good = len(joins) == 1 and txt and dropped and p.events.index(dropped[0]) < p.events.index(joins[0]) and strip_wrap(joins[0].args[0]) == ("vfield", ("take", ("wrap", "Guard", ("field", ("param", 1), A.f_ch_handle))), "Some", 0) or False
                 good = len(joins) == 1 and bool(txt) and bool(dropped) and p.events.index(dropped[0]) < p.events.index(joins[0])
                 rep.check(good, "R2", "disconnect-then-join:" + short(b.path), ctx.where(b, joins[0].bb) if joins else ctx.where(b), "sender slot emptied and dropped, then the subscriber thread is joined", "release path [%s]: sender dropped first=%s, joins=%d" % (p.describe(), bool(dropped) and bool(joins) and p.events.index(dropped[0]) < p.events.index(joins[0]), len(joins)))
             else:
@@ -405,7 +405,7 @@ def ch_channeled_release(ctx, rep):
         # reached from on_unsubscribe and Subscription::unsubscribe of the wrapper
         for tr, m in (("Subscriber", "on_unsubscribe"), ("Subscription", "unsubscribe")):
             try:
-                e = A.method("ChanneledSubscriber", m, tr)
+                e = A.method(A.name_of(A.channeled_adt), m, tr)
                 rep.check(b.path in ctx.sync_reach([e]), "R2", "release-reached-from:%s" % m, ctx.where(e), "%s releases the channel and joins" % m, "%s does not reach the release" % m)
             except AnchorMissing as ex:
                 rep.anchor_missing("R2", ex.what)
